@@ -334,6 +334,13 @@ func (sc *specCtx) binary(e *CBin) Val {
 				eq = "(= (i-tag " + x.S + ") 0)"
 			case y.Sort == SIface && x.S == "nil":
 				eq = "(= (i-tag " + y.S + ") 0)"
+			case x.Sort == SIface && y.Sort != SIface && y.T != nil:
+				// interface value against a value of a concrete type: box it
+				box, _ := vc.boxFns(y.T)
+				eq = fmt.Sprintf("(and (= (i-tag %s) %d) (= (i-val %s) (%s %s)))", x.S, vc.typeTag(y.T), x.S, box, y.S)
+			case y.Sort == SIface && x.Sort != SIface && x.T != nil:
+				box, _ := vc.boxFns(x.T)
+				eq = fmt.Sprintf("(and (= (i-tag %s) %d) (= (i-val %s) (%s %s)))", y.S, vc.typeTag(x.T), y.S, box, x.S)
 			case x.Sort != y.Sort:
 				unsup("spec: comparing different sorts %s and %s in %s", x.Sort, y.Sort, e)
 			default:
@@ -903,6 +910,20 @@ func (sc *specCtx) call(e *CCall) Val {
 			return &Term{"true", SBool, nil}
 		}
 		return &Term{"(forall ((r Ref)) (! (=> " + and(conds...) + " (= (select " + cur + " r) (select " + old + " r))) :pattern ((select " + cur + " r))))", SBool, nil}
+	case "panicvalue":
+		// the value a panic leaves the function with (on_panic clauses)
+		pv := "(mk-iface 0 0)"
+		if sc.st != nil && sc.st.pval != "" {
+			pv = sc.st.pval
+		}
+		return &Term{pv, SIface, types.NewInterfaceType(nil, nil)}
+	case "recovered":
+		// the function returned normally after one of its deferred calls recovered a panic
+		r := "false"
+		if sc.st != nil && sc.st.recov != "" {
+			r = sc.st.recov
+		}
+		return &Term{r, SBool, types.Typ[types.Bool]}
 	case "absval":
 		// abstract integer value of an opaque object (uninterpreted function of the reference)
 		x := arg(0)
